@@ -187,6 +187,7 @@ inductive BExpr where
   | filt (m : Matcher) (b : BExpr)
   | multi (a b : BExpr)
   | overlay (a b : BExpr)
+  | strip (b : BExpr)      -- storage.StripReadBucketExternalPaths (strip.go)
 
 abbrev Bases := List Mem
 
@@ -220,6 +221,9 @@ def rGet : BExpr → Bases → Str → Except PErr Content
     | .ok ca => .ok ca
     | .error .notExist => rGet b bs path
     | .error e => .error e
+  -- strip.go: Get/Stat delegate unchanged; only the ExternalPath METADATA of the returned object
+  -- is replaced by its Path (the model has no ExternalPath: objects are (path, content))
+  | .strip b, bs, path => rGet b bs path
 
 def hasKey (objs : List (Str × Content)) (k : Str) : Bool := objs.any (fun kv => kv.1 = k)
 
@@ -265,6 +269,20 @@ def rWalk : BExpr → Bases → Str → Except PErr (List (Str × Content))
       match rWalk b bs pfx with
       | .error e => .error e
       | .ok ob => .ok (oa ++ ob.filter fun kv => !hasKey oa kv.1)
+  -- strip.go: Walk delegates with the same prefix, same objects, same order
+  | .strip b, bs, pfx => rWalk b bs pfx
+
+/-- `storage.WalkReadObjects` / `copyPaths`: every walked path is read back with `Get` on the same
+    bucket (the walk only supplies the PATHS); the first failing `Get` aborts. -/
+def readObjects (e : BExpr) (bs : Bases) : List (Str × Content) → Except PErr (List (Str × Content))
+  | [] => .ok []
+  | kv :: rest =>
+    match rGet e bs kv.1 with
+    | .error er => .error er
+    | .ok c =>
+      match readObjects e bs rest with
+      | .error er => .error er
+      | .ok out => .ok ((kv.1, c) :: out)
 
 def Bases.set (bs : Bases) (i : Nat) (m : Mem) : Bases :=
   (List.range (max bs.length (i + 1))).map fun j => if j = i then m else bs.get j
@@ -289,5 +307,12 @@ def rCopy (e : BExpr) (bs : Bases) (target : Nat) : Except PErr (Nat × Bases) :
 /-! ### The abstract spec: a finite map from component lists to contents. -/
 
 abbrev Spec := List (Key × Content)
+
+/-- The path argument of an operation as the abstract map sees it: an error class, or the key
+    (list of proper components; `[]` for the root ".") the path denotes. -/
+def keyOf (s : Str) : Except PErr Key :=
+  match normalizeAndValidate s with
+  | .ok p => .ok (cleanComps p)
+  | .error e => .error e
 
 end BufModel.Bucket
